@@ -11,7 +11,8 @@ from bs4 import (BeautifulSoup, CData, Comment, Declaration, Doctype, NavigableS
 NAMES = ['a', 'b', 'p', 'div', 'span', 'li']
 IDS = ['x', 'y', 'X', 'i1', 'i2']
 CLASSES = ['x', 'y', 'X', 'k', 'x-y']
-VALS = ['', 'x', 'X', 'x y', 'x-y', 'xy', 'en', 'en-US', ' x', 'é', 'yx', 'x\n', 'x-', '-x', 'y x', 'x\ty']
+VALS = ['', 'x', 'X', 'x y', 'x-y', 'xy', 'en', 'en-US', ' x', 'é', 'yx', 'x\n', 'x-', '-x', 'y x', 'x\ty', 'y\nx', 'x\ny',
+        'x-\ny', 'y\n x']
 ATTRS = ['title', 'data-x', 'lang', 'href']
 
 NS_XHTML = 'http://www.w3.org/1999/xhtml'
@@ -96,7 +97,7 @@ def gen_filler(rng, ws_mode, kinds=('text', 'blank', 'comment', 'cdata', 'pi')):
 
 
 def gen_tree(rng, max_nodes=25, ws_mode=None, names=NAMES, max_depth=6, kinds=('text', 'blank', 'comment', 'cdata', 'pi'),
-             attrs=gen_attrs):
+             attrs=gen_attrs, p_dup=.3):
     """One element recipe with up to max_nodes element descendants.  Returns (E, ws_mode)."""
     budget = [rng.randint(1, max_nodes)]
     ws_mode = ws_mode if ws_mode is not None else rng.choice(['none', 'blank', 'mixed', 'mixed'])
@@ -109,7 +110,25 @@ def gen_tree(rng, max_nodes=25, ws_mode=None, names=NAMES, max_depth=6, kinds=('
             e.kids.append(el(depth + 1))
             e.kids.extend(gen_filler(rng, ws_mode, kinds))
         return e
-    return el(0), ws_mode
+    root = el(0)
+    # structurally identical twins (equal tags compare == in bs4; identity must still be what counts)
+    if rng.random() < p_dup:
+        import copy
+        holders = []
+
+        def walk(e):
+            if any(isinstance(k, E) for k in e.kids):
+                holders.append(e)
+            for k in e.kids:
+                if isinstance(k, E):
+                    walk(k)
+        walk(root)
+        if holders:
+            h = rng.choice(holders)
+            idx = [i for i, k in enumerate(h.kids) if isinstance(k, E)]
+            i = rng.choice(idx)
+            h.kids.insert(rng.choice([i, i + 1, len(h.kids)]), copy.deepcopy(h.kids[i]))
+    return root, ws_mode
 
 
 def wrap(rng, root, mode=None, extra=None):
